@@ -646,3 +646,33 @@ def undirected_adaptor_symm(facts):
                 r.ok(b.npath, "chain", "one half is wrapped (filtered): a self-loop is yielded once")
     r.floor = 2
     return r
+
+
+# ------------------------------------------------------------------------------------------------ C11 (find_negative_cycle: follow the LAST relaxation)
+def negcycle_last_relaxation(facts):
+    o = Obl("FLOW-LASTRELAX", "find_negative_cycle: when an edge (i, j) can still be relaxed after |V|-1 rounds, the predecessor chain that is followed back from j must "
+                              "contain that last relaxation - predecessor[j] is set to i (under the relaxation test, before the chain is read). Only then is the chain "
+                              "guaranteed to end in a cycle of g; the old predecessor of j may lead to the source (no predecessor), which is then reported as a "
+                              "`self cycle` although it has no self-loop")
+    for b in o.need_fn(facts, "algo::bellman_ford::find_negative_cycle"):
+        tests = [i for i, t in b.calls() if norm_path(t["f"]["path"]) == "core::cmp::PartialOrd::lt" and t["args"] and has_call(b.expr(t["args"][0], 8), ("add",))]
+        o.check(b, "relax-test", b.line, len(tests) >= 1, "%d relaxation test(s)" % len(tests), "relaxation test not found in find_negative_cycle")
+        # reads of an Option<NodeId> vector (the predecessor chain) and stores into one
+        def is_pred_vec(op):
+            l = op_local(op)
+            e = b.expr(op, 6, named_leaf=True)
+            tys = [b.lty(x[1]) for x in leaves(e) if x[0] == "local"]
+            return any("Vec<core::option::Option<" in ty for ty in tys)
+        reads = [i for i, t in b.calls() if norm_path(t["f"]["path"]) == "core::ops::Index::index" and t["args"] and is_pred_vec(t["args"][0])]
+        stores = [i for i, t in b.calls() if norm_path(t["f"]["path"]) == "core::ops::IndexMut::index_mut" and t["args"] and is_pred_vec(t["args"][0])]
+        o.check(b, "chain-reads", b.line, len(reads) >= 1, "%d predecessor read(s)" % len(reads), "no read of the predecessor vector found")
+        ok = False
+        for s_ in stores:
+            if any(b.dominates(tb, s_) for tb in tests) and all(b.dominates(s_, r_) for r_ in reads):
+                ok = True
+        o.check(b, "last-relaxation-recorded", b.line, ok, "predecessor[j] = Some(i) under the relaxation test, before the chain is followed",
+                "the predecessor chain is followed from j without recording the relaxation (i, j) that proved the cycle: the stale predecessor of j can lead "
+                "back to the source, whose missing predecessor is reported as a one-node `cycle` - find_negative_cycle returns a sequence that is not a "
+                "closed walk of g (e.g. the single edge 0 - 1 of weight -1 on an undirected graph, source 1, gives [1])")
+    o.r.floor = 3
+    return o.r
